@@ -199,6 +199,26 @@ def r1_format_args(run: Run, src):
             run.check(ok, 'C07.R1', f'Context.build_class/{k.arg}', 'not-an-object',
                       f'{k.arg} is passed to the template as `{ast.unparse(k.value)[:60]}`, not as the stored dict/list object: '
                       f'sheet titles would be spliced as text', fact=f'{k.arg}={ast.unparse(k.value)}', loc=loc_of(fi.module.path, k.value))
+    # any further format argument: a constant is harmless; text made from the workbook-derived title map (join, str, f-string)
+    # is spliced into the module source unquoted -- in a docstring or comment a title can close the literal / the line
+    for k in call.keywords:
+        if k.arg in ('titles', 'sheets_size', 'functions') or k.arg is None:
+            continue
+        v = k.value
+        txt = ast.unparse(v)
+        if isinstance(v, ast.Constant):
+            run.ok('C07.R1', f'Context.build_class/{k.arg}', 'constant format argument', loc=loc_of(fi.module.path, v))
+        elif isinstance(v, ast.Call) and isinstance(v.func, ast.Name) and v.func.id == 'repr':
+            run.ok('C07.R1', f'Context.build_class/{k.arg}', 'repr(...) format argument', loc=loc_of(fi.module.path, v))
+        elif '_titles' in txt or 'titles' in txt or 'title' in txt:
+            run.bad('C07.R1', f'Context.build_class/{k.arg}', 'title-text-in-template',
+                    f'the template hole {{{k.arg}}} is filled with `{txt[:70]}`: sheet titles reach the generated module as raw text (not '
+                    f'through the repr of the title map), so a title containing quotes or a line break becomes source code', 
+                    loc=loc_of(fi.module.path, v))
+        else:
+            raise AnalysisError('C07.R1', f'format argument {k.arg}=`{txt[:50]}` of the class template is not modelled')
+    if call.args:
+        raise AnalysisError('C07.R1', 'positional format arguments of the class template are not modelled')
     # every store to *._titles holds a dict object keyed by the titles
     n = 0
     for f in src.functions.values():
